@@ -53,7 +53,36 @@ def gen_password(rng, tame=True, allow_ew=True):
     return ''.join(parts)
 
 
-def gen_list(rng, n=None, tame=True, allow_ew=True, dup_rate=0.4):
+FAMILIES = [('love', 'bird', 'song'), ('fish', 'boat', 'lamp'), ('green', 'house', 'tiger'), ('pass', 'word', 'secret'),
+            ('любовь', 'пароль', 'house')]
+
+
+def multiword_family(rng, fam=None):
+    """a compound of three frequent base words followed, later in the list, by strings whose letters are exactly its two-word
+    tail (and its middle word pair): the multi-word detector meets the tail first inside the compound and then on its own - the
+    second answer must not depend on the first (the detector is one object for the whole second pass / for every scored string)"""
+    a, b, c = fam or rng.choice(FAMILIES)
+    out = []
+    for w in (a, b, c):
+        out += [w] * rng.choice([5, 6])
+    out += [a + b + c, a + b + c + rng.choice(['1', '2019', '!']), b.capitalize() + c.capitalize(), b + c + rng.choice(['7391', '12', '#1']),
+            a + b, b + c]
+    return out
+
+
+def scorer_family(fam=('love', 'bird', 'song')):
+    """the scorer only registers a word for multi-word splitting when at least five lower probability tiers exist in the word's
+    length class: five filler words with counts 1..5, the three base words above them, then the compound and its tails"""
+    out = []
+    for k, w in enumerate(['wxyz', 'qrsu', 'mnpo', 'ghij', 'cdfe']):
+        out += [w] * (k + 1)
+    for k, w in enumerate(fam):
+        out += [w] * (8 - k)
+    a, b, c = fam
+    return out + [a + b + c + '1', b + c + '7391', a + b + c, b.capitalize() + c.capitalize(), a + b + '2', b + c]
+
+
+def gen_list(rng, n=None, tame=True, allow_ew=True, dup_rate=0.4, family=None):
     n = n or rng.randint(5, 40)
     base = []
     while len(base) < n:
@@ -69,4 +98,6 @@ def gen_list(rng, n=None, tame=True, allow_ew=True, dup_rate=0.4):
     for w in rng.sample(WORDS, 4):
         if len(w) >= 4:
             out += [w] * rng.choice([0, 5, 6])
+    if family is True or (family is None and rng.random() < 0.35):
+        out += multiword_family(rng)
     return out
